@@ -100,6 +100,14 @@ pub enum ImportOp {
         ttl: Option<WTtl>,
         hash: bool,
     },
+    /// import a frame under the id of a stored (non-registration) frame with another topic
+    /// and/or another context: the stored frame is replaced, so it leaves its old topic and its
+    /// old context
+    Move {
+        target: u16,
+        topic: Option<String>,
+        ctx: Option<u8>,
+    },
     /// import a different frame under the id of a frame that is gone (the id is free)
     Reuse {
         target: u16,
@@ -201,6 +209,7 @@ impl Op {
             Op::Import(ImportOp::Back(_)) => "import-back",
             Op::Import(ImportOp::Reuse { .. }) => "import-reuse-id",
             Op::Import(ImportOp::Amend { .. }) => "import-amend",
+            Op::Import(ImportOp::Move { .. }) => "import-move",
             Op::Import(ImportOp::Reg { .. }) => "import-reg",
             Op::Import(ImportOp::Nul { .. }) => "import-nul",
             Op::Remove(_) => "remove",
@@ -572,6 +581,8 @@ pub fn op_strategy(p: &Profile) -> BoxedStrategy<Op> {
         2 => (any::<u16>(), meta_opt(p.meta), prop_oneof![2 => Just(None), 1 => Just(Some(WTtl::Forever)), 1 => Just(Some(WTtl::Time(u64::MAX)))], any::<bool>())
             .prop_map(|(target, meta, ttl, hash)| ImportOp::Amend { target, meta, ttl, hash }),
         2 => (topic_nul(), pos_sel(), proptest::option::weighted(0.5, any::<u16>())).prop_map(|(topic, pos, over)| ImportOp::Nul { topic, pos, over }),
+        2 => (any::<u16>(), proptest::option::weighted(0.6, topic_of(p)), proptest::option::weighted(0.6, 0u8..5))
+            .prop_map(|(target, topic, ctx)| ImportOp::Move { target, topic, ctx }),
     ]
     .prop_map(Op::Import);
     let import_reg = (
@@ -736,6 +747,7 @@ pub struct Flags {
     pub refused_import_over_stored: bool,
     pub via_client: bool,
     pub registration_amended: bool,
+    pub import_moved: bool,
 }
 
 impl Default for Flags {
@@ -762,6 +774,7 @@ impl Default for Flags {
             refused_import_over_stored: false,
             via_client: false,
             registration_amended: false,
+            import_moved: false,
         }
     }
 }
@@ -2195,6 +2208,43 @@ impl Interp {
                         self.do_import(spec)?;
                     }
                 }
+                ImportOp::Move { target, topic, ctx } => {
+                    let ev = self.model.pending_evictable();
+                    let live: Vec<FrameSpec> = self
+                        .known
+                        .iter()
+                        .filter(|k| k.spec.topic != "xs.context" && !ev.contains(&k.id))
+                        .filter(|k| {
+                            self.model
+                                .frames
+                                .get(&k.id)
+                                .map(|f| f.presence == Presence::Present && f.pending_remove.is_none() && !self.model.is_expired(f))
+                                .unwrap_or(false)
+                        })
+                        .map(|k| k.spec.clone())
+                        .collect();
+                    if let Some(i) = pick(*target, live.len()) {
+                        let mut spec = live[i].clone();
+                        if let Some(t) = topic {
+                            if t != "xs.context" && !t.as_bytes().contains(&0) {
+                                spec.topic = t.clone();
+                            }
+                        }
+                        if let Some(c) = ctx {
+                            // the zero context or one of the registered ones (import stores as is)
+                            let mut all = vec![ZERO];
+                            all.extend(self.ctxs.iter().cloned());
+                            spec.ctx = all[*c as usize % all.len()];
+                        }
+                        // retention work queued for the old topic does not follow the frame around:
+                        // keep it simple and give the moved frame no TTL of its own
+                        spec.ttl = Some(WTtl::Forever);
+                        if spec.topic != live[i].topic || spec.ctx != live[i].ctx {
+                            self.flags.import_moved = true;
+                        }
+                        self.do_import(spec)?;
+                    }
+                }
                 ImportOp::Reuse {
                     target,
                     topic,
@@ -2523,6 +2573,7 @@ pub fn run_history(case: &HistCase) -> Result<(CaseInfo, Flags), Fail> {
         (fl.refused_import_over_stored, "refused-import-over-stored-id"),
         (fl.via_client, "through-xs-client-library"),
         (fl.registration_amended, "registration-frame-re-imported-with-other-meta"),
+        (fl.import_moved, "import-over-stored-id-changes-topic-or-context"),
         (it.model.fuzzy_checks > 0, "had-three-valued-check"),
     ] {
         if on {
